@@ -91,6 +91,11 @@ def tree_hash():
             except OSError:
                 continue
             h.update(f.encode() + b"\0" + hashlib.sha256(data).digest())
+        # the derive corpus is part of the cache key
+        try:
+            h.update(hashlib.sha256(open(os.path.join(VERIF, "engines", "fixtures", "src", "lib.rs"), "rb").read()).digest())
+        except OSError:
+            pass
         # the engines themselves are part of the cache key
         for eng in (MIRFACTS_BIN, SRCFACTS_BIN):
             try:
